@@ -3,7 +3,7 @@ input and a Pretext Assembly from a template and symbolic integers, runs the
 real BuildAssembly.remap_to_input_assembly + assemblies_with_scaffolds_fused,
 and offers fork-free oracles over the outputs."""
 from vlib.h.agp import *  # noqa: F401,F403
-from vlib.h.base import (AND, COUNT, FIN, IMAX, IMIN, IMPLIES, ITE, NOT, OPTS, OR, PLAIN, START, Assembly, Fragment, Gap,
+from vlib.h.base import (AND, COUNT, FIN, IMAX, IMIN, IMPLIES, ISUM, ITE, NOT, OPTS, OR, PLAIN, START, Assembly, Fragment, Gap,
                          IndexedAssembly, Scaffold, is_frag, is_gap, mkgap)
 
 from tola.assembly.build_assembly import BuildAssembly
@@ -385,12 +385,14 @@ def grid_realisable(tf, fr, cuts, ends):
 
 # ---------------------------------------------------------------- C07 gap oracle
 def _right_end(f):
-    """(name, coordinate) of the fragment's end that faces RIGHT in scaffold order"""
-    return (f.name, f.end if f.strand != -1 else f.start)
+    """(name, coordinate, side) of the fragment's end that faces RIGHT in scaffold
+    order; side 'hi'/'lo' = high/low contig-coordinate end (a 1-bp contig has two
+    distinct ends with the same coordinate)"""
+    return (f.name, f.end, "hi") if f.strand != -1 else (f.name, f.start, "lo")
 
 
 def _left_end(f):
-    return (f.name, f.start if f.strand != -1 else f.end)
+    return (f.name, f.start, "lo") if f.strand != -1 else (f.name, f.end, "hi")
 
 
 def _same_junction(f, g, A, B):
@@ -399,9 +401,9 @@ def _same_junction(f, g, A, B):
     rf, lg, rA, lB = _right_end(f), _left_end(g), _right_end(A), _left_end(B)
     fwd = False
     rev = False
-    if rf[0] == rA[0] and lg[0] == lB[0]:
+    if (rf[0], rf[2]) == (rA[0], rA[2]) and (lg[0], lg[2]) == (lB[0], lB[2]):
         fwd = AND(rf[1] == rA[1], lg[1] == lB[1])
-    if rf[0] == lB[0] and lg[0] == rA[0]:
+    if (rf[0], rf[2]) == (lB[0], lB[2]) and (lg[0], lg[2]) == (rA[0], rA[2]):
         rev = AND(rf[1] == lB[1], lg[1] == rA[1])
     return OR(fwd, rev)
 
@@ -529,3 +531,123 @@ def whole_contigs_in(outs, contigs, pred):
                     bad.append(AND(f.start <= c.end, f.end >= c.start))
         ok = AND(ok, COUNT(good) == 1, COUNT(bad) == 0)
     return ok
+
+
+# ---------------------------------------------------------------- C10 naming oracle
+def names_ok(outs, ba, prefix="SUPER_"):
+    ok = True
+    for key, asm in outs.items():
+        names = [s.name for s in asm.scaffolds]
+        if len(names) != len(set(names)):
+            return False                                   # names unique within each output assembly
+    hasm = outs.get("Haplotig")
+    if hasm is not None:
+        hs = hasm.scaffolds
+        byname = {s.name: s for s in hs}
+        n = len(hs)
+        if set(byname) != {f"H_{i + 1}" for i in range(n)}:
+            return False                                   # H_1..H_n without holes
+        for i in range(1, n):
+            ok = AND(ok, byname[f"H_{i}"].length >= byname[f"H_{i + 1}"].length)
+        if [s.name for s in hs] != [f"H_{i + 1}" for i in range(n)]:
+            return False                                   # written in numeric order
+    for key, asm in outs.items():
+        if not asm.curated:
+            continue
+        scs = asm.scaffolds
+        ranks = [s.rank for s in scs]
+        if ranks != sorted(ranks):
+            return False                                   # autosomes, then named, then unplaced
+        chrom = {}                                         # k -> {"chr": scaffold, "unloc": {j: scaffold}}
+        order = []
+        for s in scs:
+            if s.rank == 1:
+                m = _re.fullmatch(_re.escape(prefix) + r"(\d+)([A-Z]?)(?:_unloc_(\d+))?", s.name)
+                if not m:
+                    return False
+                k = (int(m.group(1)), m.group(2))
+                ent = chrom.setdefault(k, {"chr": None, "unloc": {}})
+                if m.group(3) is None:
+                    if ent["chr"] is not None:
+                        return False
+                    ent["chr"] = s
+                    order.append((k, 0))
+                else:
+                    j = int(m.group(3))
+                    if j in ent["unloc"]:
+                        return False
+                    ent["unloc"][j] = s
+                    order.append((k, j))
+            elif s.rank == 2:
+                tags = [t for t in (s.original_tags or ()) if _looks_like_chr_name(t)]
+                base = s.name.split("_unloc_")[0]
+                if len(tags) != 1 or base != (tags[0] if tags[0].startswith(prefix) else prefix + tags[0]):
+                    return False                           # name-tagged scaffolds become <prefix><tag>
+        if order != sorted(order):
+            return False                                   # numeric order, unlocs directly after their chromosome
+        nums = sorted({k[0] for k in chrom})
+        if nums != list(range(1, len(nums) + 1)):
+            return False                                   # <prefix>1..n without holes
+        totals = {}
+        for k, ent in chrom.items():
+            if ent["chr"] is None:
+                return False                               # an unloc without its chromosome
+            js = sorted(ent["unloc"])
+            if js != list(range(1, len(js) + 1)):
+                return False                               # _unloc_1..m without holes
+            for a in range(1, len(js)):
+                ok = AND(ok, ent["unloc"][a].length >= ent["unloc"][a + 1].length)
+            if k[1] in ("", "A"):
+                totals[k[0]] = ISUM([ent["chr"].fragments_length] + [u.fragments_length for u in ent["unloc"].values()])
+        for a in range(1, len(nums)):
+            if a in totals and a + 1 in totals:
+                ok = AND(ok, totals[a] >= totals[a + 1])     # ranked by sequence length, chromosome plus its unlocs
+        # chromosome list CSV: one line per chromosome or unloc scaffold, localised = no exactly for unlocs
+        csv = ba.assembly_stats.chromosome_name_csv(asm)
+        lines = csv.split("\n")[:-1] if csv else []
+        exp = [s for s in scs if s.rank in (1, 2)]
+        if len(lines) != len(exp):
+            return False
+        for ln, s in zip(lines, exp):
+            c = ln.split(",")
+            if len(c) != 3 or c[0] != s.name:
+                return False
+            is_unloc = "_unloc_" in s.name
+            if c[2] != ("no" if is_unloc else "yes"):
+                return False
+            if c[1] != s.name.split("_unloc_")[0].replace(prefix, "", 1):
+                return False
+    return ok
+
+
+# ---------------------------------------------------------------- C11 statistics oracle
+def _junctions(scaffolds):
+    """facing contig ends of consecutive fragments: [((name, coord), (name, coord)), ...]"""
+    js = []
+    for sc in scaffolds:
+        fr = [r for r in sc.rows if is_frag(r)]
+        for a, b in zip(fr, fr[1:]):
+            js.append((_right_end(a), _left_end(b)))
+    return js
+
+
+def _end_eq(x, y):
+    if x[0] != y[0] or x[2] != y[2]:
+        return False
+    return x[1] == y[1]
+
+
+def _junction_eq(p, q):
+    return OR(AND(_end_eq(p[0], q[0]), _end_eq(p[1], q[1])), AND(_end_eq(p[0], q[1]), _end_eq(p[1], q[0])))
+
+
+def stats_ok(inp, outs, st):
+    jin = _junctions(inp.scaffolds)
+    jout = []
+    for k, asm in outs.items():
+        jout += _junctions(asm.scaffolds)
+    breaks = COUNT([NOT(OR(*[_junction_eq(p, q) for q in jout])) for p in jin])
+    joins = COUNT([NOT(OR(*[_junction_eq(p, q) for q in jin])) for p in jout])
+    n_out = len(out_frags(outs))
+    n_in = len(in_contigs(inp))
+    return AND(st.breaks == breaks, st.joins == joins, st.cuts == n_out - n_in)
